@@ -204,6 +204,28 @@ func concretiseOne(r *Replay, tag string, seedBase int) string {
 		}
 		return true
 	}
+	// partial(k): the constraints that only involve roles 0..k hold
+	partial := func(k int) bool {
+		if k < nAtt && k > 0 {
+			if !(spelling(k-1, assign, pubHex) < spelling(k, assign, pubHex)) {
+				return false
+			}
+		}
+		for i := 1; i < maxT; i++ {
+			if !slots[i].present || !slots[i-1].present || !slots[i].recok || !slots[i-1].recok {
+				continue
+			}
+			ra, rb := signerRole(i-1), signerRole(i)
+			if ra > k || rb > k || (ra != k && rb != k) {
+				continue
+			}
+			a, b := addrs[assign[ra]], addrs[assign[rb]]
+			if (bytes.Compare(a, b) < 0) != slots[i].lessPrev {
+				return false
+			}
+		}
+		return true
+	}
 	var rec func(k int)
 	rec = func(k int) {
 		if found {
@@ -221,7 +243,9 @@ func concretiseOne(r *Replay, tag string, seedBase int) string {
 			}
 			used[c] = true
 			assign[k] = c
-			rec(k + 1)
+			if partial(k) {
+				rec(k + 1)
+			}
 			if found {
 				return
 			}
